@@ -45,6 +45,24 @@ func buildReport(id, tier string, seed int, claim *Claim, results []*FnResult, a
 			case "sat":
 				nCoverOK++
 			case "unsat":
+				// a call-site cover ("after.<callee>.<n>") is a finding only if the path was alive before the
+				// callee's postconditions were assumed ("before.<callee>.<n>" satisfiable): dead code is not vacuity
+				if i := strings.Index(o.Name, "::cover.after."); i >= 0 {
+					alive := false
+					for _, b := range all {
+						if b.Name == o.Name[:i]+"::cover.before."+o.Name[i+len("::cover.after."):] && b.Verdict == "sat" {
+							alive = true
+						}
+					}
+					if !alive {
+						nCoverUnknown++
+						continue
+					}
+				}
+				if strings.Contains(o.Name, "::cover.before.") {
+					nCoverUnknown++ // an unreachable call site
+					continue
+				}
 				fails = append(fails, &failure{o: o, reason: "vacuous: the assumptions at this point are contradictory (cover query is unsat)"})
 			default:
 				nCoverUnknown++
